@@ -94,6 +94,15 @@ void eval(Ctx& c) {
 }
 }  // namespace
 void reg_powerlaw() {
-  Sol s; s.name = "navierstokes_4d_compressible_powerlaw"; s.prop = "C03"; s.nargs = 4; s.draw = draw; s.point = box_point; s.eval = eval; add(s);
+  Sol s; s.name = "navierstokes_4d_compressible_powerlaw"; s.prop = "C03"; s.nargs = 4; s.draw = draw; s.point = box_point; s.eval = eval;
+  s.special_ok = [](const std::string& n) {
+    if (n == "kappa_r" || n == "lambda_r" || n == "beta") return 2;
+    if (n.size() < 3 || n[1] != '_') return 0;
+    bool pos = n.compare(2, 3, "rho") == 0 || n[2] == 'T';
+    if (n[0] == 'a') return pos ? ((n == "a_rho0" || n == "a_T0") ? 0 : 1) : 2;
+    if (std::string("bcdefg").find(n[0]) != std::string::npos) return (pos && (n == "f_rho0" || n == "g_rho0" || n == "f_T0" || n == "g_T0")) ? 1 : 2;
+    return 0;
+  };
+  add(s);
 }
 }  // namespace orc
